@@ -57,9 +57,10 @@ def body(run):
         for si in range(nsched):
             threads = rng.choice([2, 2, 3, 4, 8])
             seed = rng.randrange(10 ** 9)
-            r = ic.run_fuse(pair, run.work / 'sched.tif', rng=random.Random(seed), threads=threads, **kw)
+            order = ('fifo', 'lifo', 'shuffle')[si % 3]
+            r = ic.run_fuse(pair, run.work / 'sched.tif', rng=random.Random(seed), threads=threads, task_order=order, **kw)
             ntasks = sum(1 for e in r['rec'].events if e[2] == 'task-start')
-            desc = dict(desc0, threads=threads, schedule_seed=seed, blocks=ntasks, schedule_prefix=[str(c)[-4:] for c in r['rec'].sched.choices[:12]])
+            desc = dict(desc0, threads=threads, schedule_seed=seed, task_order=order, blocks=ntasks, schedule_prefix=[str(c)[-4:] for c in r['rec'].sched.choices[:12]])
             key = f'fuse/{model}/threads={threads}/param={with_param}'
             dist[key] = dist.get(key, 0) + 1
             run.count_case(('fuse', gi, seed, threads), ntasks >= 2, desc if len(run.cov['samples']) < 3 else None)
@@ -130,12 +131,15 @@ def body(run):
             dist['skipped:' + type(ex).__name__] = dist.get('skipped:' + type(ex).__name__, 0) + 1
             continue
         bd = ic.digest(base)
-        for si in range(nsched):
+        for si in range(nsched + 2):
             threads = rng.choice([2, 3, 4])
             seed = rng.randrange(10 ** 9)
-            r = ic.run_fuse(pair, run.work / 'msched.tif', rng=random.Random(seed), threads=threads, **kw)
+            # the first two schedules take the tasks in reverse / shuffled submission order (every block of band 2 before band 1's), the others in
+            # submission order with random switches: completion order is not promised by the executor
+            order = ('lifo', 'shuffle')[si] if si < 2 else 'fifo'
+            r = ic.run_fuse(pair, run.work / 'msched.tif', rng=random.Random(seed), threads=threads, task_order=order, **kw)
             desc = dict(geom=g.describe(), bands=2, per_band_nodata_holes=True, out_profile=dict(nodata=None), model='gain', kernel_shape=[3, 3],
-                        max_block_mem=mbm, threads=threads, schedule_seed=seed)
+                        max_block_mem=mbm, threads=threads, schedule_seed=seed, task_order=order)
             dist['fuse/2-band internal mask'] = dist.get('fuse/2-band internal mask', 0) + 1
             run.count_case(('fuse-mask', mi, seed, threads), True, None)
             if r['outcome'] != 'ok':
